@@ -18,6 +18,7 @@ ENTRIES = [
     ("C08-queued-connections-at-death", "C08", ["C08-d19f99d.diff"], "C08:dead-worker-never-discovered"),
     # the worker-side fix masks the ordering defect: revert both to see it again
     ("C06-stop-ordering", "C06", ["C06-970f0dd.diff", "C06-2a1d0f5.diff"], "C06:graceful-stop"),
+    ("C06-worker-ends-on-closed-conn-channel", "C06", ["C06-970f0dd.diff"], "C06:"),
     ("C06-lazy-counter", "C06", ["C06-a42c097.diff"], "C06:graceful-stop"),
     ("C19-openssl-panic", "C19", ["C19-2c578aa.diff"], "C19:tls-connector-panics:openssl"),
 ]
